@@ -77,6 +77,25 @@ def gen_l1(rng):
     return ops
 
 
+def fixed_l1():
+    """Scripted scenarios (run first, independent of the random draw): lines with 2..5 aliased pipeline stages whose values
+    have 0 / 1 / 2 / 3 words, in every order -- the replacement of one stage must not move the place where a later (or
+    earlier) stage is replaced.  (Seed C17-splice-shift-not-accumulated: an index offset that forgets all but the previous
+    replacement shows only from the third aliased stage on.)"""
+    import itertools
+    vals = {"p1": "hp @ -a one", "p2": "hp", "p3": "hp 'a b' -c", "ll": "ls -l", "Q": "x-y", "g_1": "p1 | p2"}
+    defs = [["S", k, v] for k, v in vals.items()]
+    out = []
+    names = ["p1", "p2", "p3", "ll", "Q", "g_1"]
+    for k in (2, 3, 4, 5):
+        combos = list(itertools.product(names, repeat=k))
+        step = max(1, len(combos) // 40)
+        for ci, combo in enumerate(combos[::step]):
+            line = " | ".join("%s arg%d" % (nm, i) if (ci + i) % 3 else nm for i, nm in enumerate(combo))
+            out.append(defs + [["E", line], ["E", "xargs " + line], ["E", "zz 1 | " + line + " | zz 2"]])
+    return out
+
+
 def toks_fields(toks):
     out = [str(len(toks))]
     for s, t in toks:
@@ -133,7 +152,7 @@ def errkind(err):
 def layer1(ctx, res):
     rng = ctx.rng
     n = 2500 if ctx.thorough else 500
-    scns = [gen_l1(rng) for _ in range(n)]
+    scns = fixed_l1() + [gen_l1(rng) for _ in range(n)]
     if ctx.replay_ops:
         scns = [ctx.replay_ops]
     path = C.write_cases("c17_l1.txt", ["scn\t" + "\t".join(C.enc(US.join(o)) for o in ops) for ops in scns])
